@@ -529,10 +529,26 @@ def replay_lorem(rp):
 
 def run_lorem(ctx, model):
     """Called by harness/c07_markup.py."""
-    ok = ctx.build(['run/LoremRun.vo'])
+    ok = ctx.build(['props/Lorem.vo', 'run/LoremRun.vo'])
+    if ok:
+        ctx.obligations('props/Lorem.v')
     lmodel = ctx.model('lorem') if ok else None
     if lmodel is None:
         return
     run_units(ctx, lmodel)
     run_headers(ctx, lmodel)
     run_pipeline(ctx, lmodel)
+    ctx.cov['rule'] = ctx.cov.get('rule', '') + (
+        ' lorem text (coq/model/MarkupLorem.v + the lorem pass of MarkupResolve.v; harness/lorem_util.py): every implementation run '
+        'of this check goes through a deterministic ORACLE bound to emmet.markup.lorem.randint (one PRNG state per case, raw draws '
+        'of both signs / small ranges that force rejections in sample()), the same raw draws go to the extracted model. Unit ties '
+        '(value and number of draws consumed; the stream cut by one draw must be reported exhausted): randint, sample, choice, '
+        'sentence, insert_commas, paragraph (every language, word counts -3..100(400), with/without the common opening) and the '
+        'header of lorem() on bare nodes (re.I code points, Unicode digits, final line feed). FULL expand() output, model = '
+        'implementation, for %d headers in %d positions (alone, counts, ranges, languages, repeated, under repeated ancestors, '
+        'groups, wrap text, numbering, attributes, escapes, user snippets that expand to lorem) under %d configurations (every '
+        'syntax, comments, BEM, output options) and random mixes, plus the number of draws left over. Independent oracle on the '
+        'implementation: every paragraph() call returns exactly word_count vocabulary entries of its language in sentence form, '
+        'word_count was drawn from the [min, max] of the header, common opening iff first copy, paragraphs verbatim and in order in '
+        'the output, text-node shape for %d shape families, and C07 itself (nothing raised but the two parse errors).'
+        % (len(HEADERS), len(TEMPLATES), len(CONFIGS), len(SHAPES)))
